@@ -9,6 +9,8 @@ CLAIMED = {
              note="lexer/linker run natively per shape (uniformity in the integer values checked with a second assignment); std/proc_macro2/quote leaves modelled and validated byte-for-byte against native output; bounds: <=3 operands, <=2 serial constraints (thorough <=3), contexts assignment/component (thorough: +SEQUENCE OF element, type reference)", ref='§4 C04'),
  'C06': dict(text="Same bridge as C04; z3 decides for all i128 endpoints that the emitted Rust integer type contains every permitted value and that a fixed-width type is only chosen for a non-extensible constraint with finite effective bounds.",
              note="as C04; integer literals of value assignments are covered by the C07 check", ref='§4 C06'),
+ 'C02': dict(text="Text shapes of SEQUENCE/SET/CHOICE/SEQUENCE OF/SET OF with one lazily chosen 'interesting' member (every built-in type, references, direct recursion, anonymous SEQUENCE/SET/CHOICE/ENUMERATED/SEQUENCE OF/SET OF nested up to 3 levels, each optionality) at the first/last (thorough: every) position of 1..3 (thorough: 1..12) members: the real front end output is loaded and the real generator MIR is executed by mirsym; an independent structural matcher derives the expected projection from the text (names, order, Option/default fn/Box, type table, set marking, hoisted items used exactly once, no by-value type cycle).",
+             note="the input space is structural: shapes are enumerated exhaustively within the bound, the solver only decides the integer leaves (DEFAULT values symbolic); lexer+linker run natively per shape; COMPONENTS OF, parameterization outside", ref='§4 C02'),
  'C03': dict(text="Exhaustive over module default x tag keyword x class x 9 tag positions (incl. nesting depth 2 and 3 and SEQUENCE OF/SET OF elements) x tagged type kind: the real front end output of each shape is loaded, the tag number is a free u64 variable, generate_module (format_tag, the automatic_tags and explicit-forcing logic of generate_choice / generate_sequence_or_set) runs from real MIR, and the rendering at the tagged position is compared with X.680 31.2.7; z3 decides the number for all u64.",
              note="lexer + linker (apply_tagging_environment) run natively per shape; marking on CHOICE/open-type kinds is not asserted (property's own note); DER bytes produced by rasn are outside", ref='§4 C03'),
  'C05': dict(text="(1) generator with the extension index `extensible: Option<usize>` a free 64-bit variable (and EXTENSIBILITY IMPLIED on/off) on SEQUENCE/SET/CHOICE/ENUMERATED of n members: z3 decides for all usize that member i is marked as extension addition iff i >= k and that #[non_exhaustive] follows marker-or-IMPLIED; (2) exhaustive text shapes (marker position, plain additions, [[ ]] groups with/without version number, nested, IMPLIED) through the real front end natively and the real generator MIR, judged against the expectation derived from the text.",
